@@ -310,7 +310,7 @@ func persistMergedRestField(segments []*Segment, dropsIn []*roaring.Bitmap, fiel
 		// can no longer optimize by copying, since chunk factor could have changed
 		lastDocNum, lastFreq, lastNorm, bufLoc, err = mergeTermFreqNormLocs(
 			fieldsMap, postItr, newDocNums[itrI], newRoaring,
-			tfEncoder, locEncoder, bufLoc, fieldDocTracking)
+			tfEncoder, locEncoder, bufLoc, fieldDocTracking, fieldFreqs, fieldID)
 
 		if err != nil {
 			return err
@@ -450,7 +450,6 @@ func prepareNewTerm(newSegDocCount uint64, chunkMode uint32, tfEncoder, locEncod
 			return err
 		}
 		newCard += pl.Count()
-		fieldFreqs[uint16(fieldID)] += newCard
 	}
 	// compute correct chunk size with this
 	var chunkSize uint64
@@ -566,7 +565,8 @@ const numUintsLocation = 4
 
 func mergeTermFreqNormLocs(fieldsMap map[string]uint16, postItr *PostingsIterator,
 	newDocNums []uint64, newRoaring *roaring.Bitmap,
-	tfEncoder, locEncoder *chunkedIntCoder, bufLoc []uint64, docTracking *roaring.Bitmap) (
+	tfEncoder, locEncoder *chunkedIntCoder, bufLoc []uint64, docTracking *roaring.Bitmap,
+	fieldFreqs map[uint16]uint64, fieldID int) (
 	lastDocNum, lastFreq, lastNorm uint64, bufLocOut []uint64, err error) {
 	next, err := postItr.Next()
 	for next != nil && err == nil {
@@ -580,6 +580,9 @@ func mergeTermFreqNormLocs(fieldsMap map[string]uint16, postItr *PostingsIterato
 
 		nextFreq := next.Frequency()
 		nextNorm := uint64(math.Float32bits(float32(next.Norm())))
+
+		// the field's total term frequency is the sum over all surviving postings
+		fieldFreqs[uint16(fieldID)] += uint64(nextFreq)
 
 		locs := next.Locations()
 
